@@ -92,6 +92,17 @@ def evaluate(data):
         except (rsieve.GrammarError, RecursionError):
             gs = None
         if gs is not None:
+            sem = rsieve._Sem(ls.toks)
+            try:
+                sem.block(gs, True)
+            except RecursionError:
+                pass
+            if "repeated-tag-slot" in sem.unspec:
+                # the source fills one optional tag slot twice: the parser keeps one of them
+                # (outside the claim of C01/C03), so the source's generic tree is no
+                # reference for what the serializer was given
+                gs = None
+        if gs is not None:
             g1 = None
             if not l1.error:
                 try:
